@@ -101,6 +101,144 @@ def sweep_helpers(rng, n):
     return out
 
 
+
+def _module_state():
+    """bit-exact snapshot of every module-level container / array of the (non-plotting) mir_eval modules"""
+    import sys
+    from harness.oracles import purity as P
+    out = {}
+    for name, mod in sorted(sys.modules.items()):
+        if not name.startswith('mir_eval') or mod is None or name.endswith('display') or name.endswith('sonify'):
+            continue
+        for k, v in sorted(vars(mod).items()):
+            if k.startswith('__') or isinstance(v, type(sys)) or callable(v):
+                continue
+            if isinstance(v, (dict, list, set, np.ndarray, tuple)):
+                out[name + '.' + k] = P.snap(sorted(v, key=repr) if isinstance(v, set) else v)
+    return out
+
+
+RICH_CHORDS = ['C:maj(*3)', 'C:maj(b7)', 'G:sus4(b7)', 'E:(b3,5)', 'A:min(*5,b6)/b3', 'D:7(#9)/5', 'F#:hdim7(*b5)', 'Bb:maj7(9,#11)', 'C:maj', 'A:min7',
+               'N', 'X', 'G:7/3', 'C:(1)', 'E:min11', 'Db:aug(9)', 'C:dim7(*bb7)']
+
+
+def sweep_module_state(rng, n):
+    """no call leaves a trace in module-level state: tables are bit-identical after a battery of calls, and a call repeated after the
+    battery returns the bit-identical result"""
+    from harness import gen_inputs as G
+    from mir_eval import chord as C
+    import mir_eval
+    before = _module_state()
+    probe_labels = list(RICH_CHORDS)
+    rng.shuffle(probe_labels)
+    with warnings.catch_warnings():
+        warnings.simplefilter('ignore')
+        first = {}
+        for l in ['C:maj', 'A:min7', 'G:7', 'D:sus4', 'E:dim', 'F:aug', 'C:maj7', 'B:hdim7', 'C:9', 'A:min(9)']:
+            for red in (False, True):
+                try:
+                    e = C.encode(l, red)
+                    first[(l, red)] = (int(e[0]), [int(x) for x in e[1]], int(e[2]))
+                except Exception as ex:  # noqa
+                    first[(l, red)] = type(ex).__name__
+        calls = []
+        for l in probe_labels:
+            for red in (False, True):
+                for strict in (False, True):
+                    try:
+                        C.encode(l, red, strict)
+                    except Exception:  # noqa
+                        pass
+            calls.append(l)
+        try:
+            C.evaluate(np.array([[0.0, 1.0], [1.0, 2.5]]), probe_labels[:2], np.array([[0.0, 1.5], [1.5, 2.5]]), probe_labels[2:4])
+        except Exception:  # noqa
+            pass
+        for m in [m for m in G.TASKS if m != 'separation']:
+            try:
+                importlib.import_module('mir_eval.' + m).evaluate(*G.TASKS[m](rng))
+            except Exception:  # noqa
+                pass
+        after = _module_state()
+        for k in before:
+            if k in after and before[k] != after[k]:
+                return [{'function': k, 'relation': 'does not modify module-level state (results are repeatable)',
+                         'input': {'calls': 'chord.encode / chord.evaluate on %s, then evaluate() of every task' % calls},
+                         'observed': 'module-level object %s changed' % k, 'why': 'a later call sees a table altered by an earlier one'}]
+        for (l, red), e in first.items():
+            try:
+                e2 = C.encode(l, red)
+                e2 = (int(e2[0]), [int(x) for x in e2[1]], int(e2[2]))
+            except Exception as ex:  # noqa
+                e2 = type(ex).__name__
+            if e2 != e:
+                return [{'function': 'chord.encode', 'relation': 'repeatable: bit-identical results independent of earlier calls',
+                         'input': {'label': l, 'reduce_extended_chords': red, 'calls_in_between': calls}, 'observed': [e, e2], 'why': ''}]
+    return []
+
+
+
+def sweep_uninitialised(rng, n):
+    """results do not depend on uninitialised memory: every evaluate() is run twice with np.empty / np.empty_like handing out buffers
+    pre-filled with two different garbage patterns; the results must be bit-identical"""
+    from harness import gen_inputs as G
+    real_empty, real_empty_like = np.empty, np.empty_like
+    out = []
+
+    def patched(fill):
+        def empty(shape, dtype=float, *a, **k):
+            r = real_empty(shape, dtype, *a, **k)
+            try:
+                if r.dtype.kind in 'fc':
+                    r.fill(fill)
+                elif r.dtype.kind in 'iu':
+                    r.fill(int(fill) % 97)
+                elif r.dtype.kind == 'b':
+                    r.fill(bool(int(fill) % 2))
+            except Exception:  # noqa
+                pass
+            return r
+
+        def empty_like(x, *a, **k):
+            r = real_empty_like(x, *a, **k)
+            try:
+                if r.dtype.kind in 'fc':
+                    r.fill(fill)
+                elif r.dtype.kind in 'iu':
+                    r.fill(int(fill) % 97)
+            except Exception:  # noqa
+                pass
+            return r
+        return empty, empty_like
+
+    def run(fn, args, fill):
+        np.empty, np.empty_like = patched(fill)
+        try:
+            with warnings.catch_warnings():
+                warnings.simplefilter('ignore')
+                try:
+                    r = fn(*copy.deepcopy(args))
+                    return dict(r) if hasattr(r, 'items') else r
+                except Exception as e:  # noqa
+                    return 'raised ' + type(e).__name__
+        finally:
+            np.empty, np.empty_like = real_empty, real_empty_like
+
+    mods = [m for m in G.TASKS if m != 'separation']
+    for _ in range(max(1, n // 20)):
+        for m in mods:
+            mod = importlib.import_module('mir_eval.' + m)
+            args = list(G.TASKS[m](rng))
+            a = run(mod.evaluate, args, 7.0e77)
+            b = run(mod.evaluate, args, 3.0)
+            if not _same(a, b):
+                out.append({'function': m + '.evaluate', 'relation': 'repeatable: bit-identical results (no read of uninitialised memory)',
+                            'input': ALL_desc(args, {}), 'observed': [repr(a)[:300], repr(b)[:300]],
+                            'why': 'the result changes with the garbage that np.empty hands out'})
+                return out
+    return out
+
+
 def _more_sweeps():
     try:
         from harness.oracles import purity as P
@@ -111,7 +249,7 @@ def _more_sweeps():
     return []
 
 
-oracle_search = propgen.budgeted([sweep_helpers, sweep_evaluate] + _more_sweeps())
+oracle_search = propgen.budgeted([sweep_module_state, sweep_uninitialised, sweep_helpers, sweep_evaluate] + _more_sweeps())
 ORACLE_BUDGET = {'quick': 30, 'thorough': 300}
 
 
@@ -122,7 +260,7 @@ def oracle_at(unit, case, impl):
 def diagnose(b):
     import random
     r = random.Random(core.seed() + 29)
-    return (sweep_helpers(r, 300) or sweep_evaluate(r, 300))[:2]
+    return (sweep_module_state(r, 1) or sweep_uninitialised(r, 200) or sweep_helpers(r, 300) or sweep_evaluate(r, 300))[:2]
 
 
 def known_match(f, known):
